@@ -888,6 +888,68 @@ example : newInstance inst (.ctor (.int none none) fun _ => .value (.int 7)) [] 
 example : newInstance inst (.ctor (.int (some 0) (some 5)) fun _ => .value (.int 7)) [] = .reported "TYPE_MISMATCH" := rfl
 example : newInstance inst (.init (.int (some 0) (some 5)) fun _ => .value (.int 7)) [] = .reported "TYPE_MISMATCH" := rfl
 
+/-! ### audit additions (stranger's review, notes/audit-C16.md): instances of the hypotheses that had none beside them -/
+
+/-- a RESOLVED table written by hand (`C16_first`, `C16_first_conv`, `C16_safe`, `C16_nomatch` speak of ANY dispatch list, built or not):
+    `(Integer[0,5])`, `(Integer, String…) with an optional block`, and a dispatch the builder can NOT produce — no types, `max = 2` -/
+def audDs : List (Dispatch Ty BTy) :=
+  [ { types := [.int (some 0) (some 5)], min := 1, max := some 1, block := .none },
+    { types := [.int none none, .str 0 none], min := 1, max := none, block := .optional .any },
+    { types := [], min := 0, max := some 2, block := .none } ]
+-- hypothesis of `C16_first`: dispatch 1 runs for (7, 'a', 'b') with a block; dispatch 0 refuses 7 (hypotheses of `C16_first_conv`)
+example : call inst binst audDs [.int 7, .str "a", .str "b"] (some ⟨0, none⟩) = .ran 1 := by decide
+example : audDs[1]? = some ⟨[.int none none, .str 0 none], 1, none, .optional .any⟩ ∧
+    callableWith inst binst ⟨[.int none none, .str 0 none], 1, none, .optional .any⟩ [.int 7, .str "a", .str "b"] (some ⟨0, none⟩) = true ∧
+    callableWith inst binst ⟨[.int (some 0) (some 5)], 1, some 1, BlockReq.none⟩ [.int 7, .str "a", .str "b"] (some ⟨0, none⟩) = false :=
+  ⟨rfl, by decide, by decide⟩
+-- both sides of `C16_nomatch`: three arguments without a block and a non-string in the tail match nothing
+example : call inst binst audDs [.int 7, .str "a", .undef] none = .reported := by decide
+/-- OBSERVATION on `C16_safe`: `Satisfies` has the disjunct `d.types = []` (the code's `IsInstance3` with no types tests sizes only), so for
+    a dispatch that is NOT the product of the builder "every argument is an instance of its parameter type" can be void: the third
+    dispatch accepts ('x', undef).  `C16_built_empty_types` below closes the gap for built dispatches. -/
+example : call inst binst audDs [.str "x", .undef] none = .ran 2 := by decide
+
+-- hypotheses of `C16_builder_rejects`: an accepted prefix with a repeated parameter and a block; one with an optional parameter only
+example : (∃ b, steps Builder.init sampleOps = .ok b) ∧ (∃ p ∈ paramsOf sampleOps, p.1.repeated = true) ∧ blocksOf sampleOps ≠ [] :=
+  ⟨⟨_, rfl⟩, ⟨(.rep, .var [.int none none, .undef]), by simp [sampleOps, paramsOf, BOp.param?], rfl⟩, by simp [sampleOps, blocksOf, BOp.block?]⟩
+example : (∃ b, steps Builder.init ([.param .bool, .optional .any] : List (BOp Ty BTy)) = .ok b) ∧
+    (∃ p ∈ paramsOf ([.param .bool, .optional .any] : List (BOp Ty BTy)), p.1 = .opt) ∧
+    (∀ p ∈ paramsOf ([.param .bool, .optional .any] : List (BOp Ty BTy)), p.1.repeated = false) :=
+  ⟨⟨_, rfl⟩, ⟨(.opt, .any), by simp [paramsOf, BOp.param?], rfl⟩, by simp [paramsOf, BOp.param?, PKind.repeated]⟩
+-- hypothesis of `C16_run_nomatch`: the sample table is accepted by the builder
+example : ∃ bs, buildAll sampleTable = .ok bs := ⟨_, rfl⟩
+-- hypotheses of `C16_call_history_free`: the same call at positions 0 and 2 of a sequence
+example : ([([Val.int 3], (none : Option Blk)), ([.int 50], none), ([.int 3], none)])[0]? = some ([.int 3], none) ∧
+    ([([Val.int 3], (none : Option Blk)), ([.int 50], none), ([.int 3], none)])[2]? = some ([.int 3], none) := ⟨rfl, rfl⟩
+-- hypothesis `Nodup` of `C16_new_struct` for the two sample Struct types (the `newModel … = value` hypothesis: the examples above)
+example : (["a"].Nodup) ∧ (["a", "b"].Nodup) := by decide
+-- hypothesis of `C16_hash_tree`, on the body itself: one tree entry [['a','b'], 1]
+example : treeBody [.arr [.arr [.str "a", .str "b"], .int 1]] (.str "tree") =
+    .value (.hash [(.str "a", .hash [(.str "b", .int 1)])]) := by rfl
+-- hypotheses of `C16_can_coerce_complete` on ONE type: distinct names, a conversion that succeeds, and CanCoerce's answer
+example : (Ty.arr (.struct [("a", false, .int none none)]) 0 none).NodupNames := by simp [Ty.NodupNames, nodupMs]
+example : (canCoerce pfx (.arr (.struct [("a", false, .int none none)]) 0 none) (.arr [.hash [(.str "a", .str "7")]])).toOption =
+    some true := by decide +kernel
+
 end Alpha
+
+/-! ### audit addition: the `types = []` disjunct of `Satisfies` is harmless on BUILT dispatches -/
+section
+variable {T BT V : Type} (inst : T → V → Bool)
+
+/-- a dispatch built by an accepted builder sequence that declares no parameter type accepts the EMPTY argument list only: the escape
+    `d.types = []` of `Satisfies` (`C16_safe`) never lets an argument through unchecked (`Builder.max` is `some 0` then) -/
+theorem C16_built_empty_types (ops : List (BOp T BT)) (b : Builder T BT) (h : steps Builder.init ops = .ok b) (ht : b.types = [])
+    (args : List V) (hc : tupleInst inst b.types b.min b.max args = true) : args = [] := by
+  have hps : paramsOf ops = [] := by
+    have := (C16_builder_arith ops b h).2.1
+    rw [ht] at this
+    exact List.map_eq_nil_iff.mp this.symm
+  have hd := (C16_decl inst ops b h args).mp hc
+  rw [hps] at hd
+  have := hd.2.1 (by simp)
+  simpa using this
+
+end
 
 end Pcore.Dispatch
